@@ -1713,6 +1713,11 @@ func parseActionList(masked string, original string, prevActions []*action, putA
 						continue
 					}
 				} else {
+					// The closing delimiter has to be the last character: nothing
+					// but the blanked argument follows the name in the masked copy
+					if strings.TrimLeft(maskedStrings[specIndex][offset:], " ") != "" {
+						return nil, errors.New("unknown action: " + spec)
+					}
 					actionArg = spec[offset+1 : len(spec)-1]
 					actions = append(actions, &action{t: t, a: actionArg})
 				}
